@@ -89,38 +89,44 @@ fn derive_accept_key(request_key: &[u8]) -> String {
 /// This `ExclusiveExtractor` implementation constructs an instance of
 /// `WebsocketUpgrade` from an HTTP request, and returns an error if the given
 /// request does not contain websocket upgrade headers.
+/// Returns whether `token` is one of the elements of the list-valued header
+/// `name` (compared ASCII-case-insensitively).  A list header may be split
+/// over several header lines, and its elements are separated by commas with
+/// optional spaces or tabs around them (RFC 9110 section 5.6.1), so look at
+/// every line and skip all of that whitespace.
+fn header_list_contains(
+    headers: &http::HeaderMap,
+    name: http::HeaderName,
+    token: &str,
+) -> bool {
+    headers.get_all(name).iter().filter_map(|hv| hv.to_str().ok()).any(|hv| {
+        hv.split(|c| c == ',' || c == ' ' || c == '\t')
+            .any(|v| v.eq_ignore_ascii_case(token))
+    })
+}
+
 #[async_trait]
 impl ExclusiveExtractor for WebsocketUpgrade {
     async fn from_request<Context: ServerContext>(
         rqctx: &RequestContext<Context>,
         request: hyper::Request<Body>,
     ) -> Result<Self, HttpError> {
-        if !request
-            .headers()
-            .get(header::CONNECTION)
-            .and_then(|hv| hv.to_str().ok())
-            .map(|hv| {
-                hv.split(|c| c == ',' || c == ' ')
-                    .any(|vs| vs.eq_ignore_ascii_case("upgrade"))
-            })
-            .unwrap_or(false)
-        {
+        if !header_list_contains(
+            request.headers(),
+            header::CONNECTION,
+            "upgrade",
+        ) {
             return Err(HttpError::for_bad_request(
                 None,
                 "expected connection upgrade".to_string(),
             ));
         }
 
-        if !request
-            .headers()
-            .get(header::UPGRADE)
-            .and_then(|v| v.to_str().ok())
-            .map(|v| {
-                v.split(|c| c == ',' || c == ' ')
-                    .any(|v| v.eq_ignore_ascii_case("websocket"))
-            })
-            .unwrap_or(false)
-        {
+        if !header_list_contains(
+            request.headers(),
+            header::UPGRADE,
+            "websocket",
+        ) {
             return Err(HttpError::for_bad_request(
                 None,
                 "unexpected protocol for upgrade".to_string(),
